@@ -164,9 +164,9 @@ def error_payload(rep, F):
     r = rep.rule("EP", "error payload: in MessageParser the InvalidFieldFormat built for a failing T::parse "
                        "carries the tag in scope (tag / full tag) as field_tag and the extracted content as value; "
                        "MissingRequiredField carries the requested tag and the parser's message type", floor=6)
-    for b in F.bodies:
-        if not b["path"].startswith("parser::message_parser::MessageParser::<'a>::") or "body" not in b:
-            continue
+    helpers = {}
+    mp_bodies = [b for b in F.bodies if b["path"].startswith("parser::message_parser::MessageParser::<'a>::") and "body" in b]
+    for b in mp_bodies:
         ps = {p["id"]: p["name"] for p in (b.get("params") or []) if p.get("k") == "bind"}
         lets = {}
         for n in walk(b["body"]):
@@ -198,6 +198,15 @@ def error_payload(rep, F):
                 if isinstance(val, dict) and val.get("k") == "local":
                     nm, init = lets.get(val["id"], (None, None))
                     okv = init is not None and any(is_call(x, "MessageParser::<'a>::extract_field") for x in walk(init))
+                # built in a helper from its parameters: judged at the helper's call sites
+                allp = [p for p in (b.get("params") or []) if p.get("k") == "bind"]
+                pidx = {p["id"]: i for i, p in enumerate(allp)}
+                if (not okt or not okv) and isinstance(ft_, dict) and ft_.get("k") == "local" and \
+                        isinstance(val, dict) and val.get("k") == "local" and \
+                        (okt or ft_["id"] in pidx) and (okv or val["id"] in pidx):
+                    helpers[b["path"]] = (None if okt else pidx[ft_["id"]], None if okv else pidx[val["id"]])
+                    r["instances"] -= 1
+                    continue
                 if not okt:
                     rep.add(Finding("EP", b["path"], "field_tag", "InvalidFieldFormat in %s does not name the tag "
                                     "being parsed" % b["name"], b["file"], n.get("ln")))
@@ -217,6 +226,40 @@ def error_payload(rep, F):
                 if not okm:
                     rep.add(Finding("EP", b["path"], "missing:message_type", "MissingRequiredField in %s does "
                                     "not carry the parser's message type" % b["name"], b["file"], n.get("ln")))
+    for b in mp_bodies:
+        if b["path"] in helpers:
+            continue
+        plist = [p for p in (b.get("params") or []) if p.get("k") == "bind" and p.get("name") != "self"]
+        tag_ids = {plist[0]["id"]} if plist else set()
+        content_ids = set()
+        for n in walk(b["body"]):
+            if is_call(n, "MessageParser::<'a>::extract_field"):
+                a0 = peel((n.get("args") or [None])[0])
+                if isinstance(a0, dict) and a0.get("k") == "local":
+                    tag_ids.add(a0["id"])
+            if n.get("k") in ("let", "letx") and n.get("init") is not None and \
+                    any(is_call(x, "MessageParser::<'a>::extract_field") for x in walk(n["init"])):
+                content_ids |= {q["id"] for q in walk_binds(n["pat"])}
+            if n.get("k") == "match" and any(is_call(x, "MessageParser::<'a>::extract_field") for x in walk(n["e"])):
+                for a_ in n["arms"]:
+                    content_ids |= {q["id"] for q in walk_binds(a_["pat"])}
+        for n in walk(b["body"]):
+            if n.get("k") in ("call", "mcall") and callee(n) in helpers:
+                r["instances"] += 1
+                ti, vi = helpers[callee(n)]
+                args = list(n.get("args") or [])
+                if n.get("k") == "mcall":
+                    args = [n.get("recv")] + args
+                if ti is not None:
+                    a_ = peel(args[ti]) if ti < len(args) else None
+                    if not (isinstance(a_, dict) and a_.get("k") == "local" and a_["id"] in tag_ids):
+                        rep.add(Finding("EP", b["path"], "field_tag", "InvalidFieldFormat in %s does not name the "
+                                        "tag being parsed" % b["name"], b["file"], n.get("ln")))
+                if vi is not None:
+                    a_ = peel(args[vi]) if vi < len(args) else None
+                    if not (isinstance(a_, dict) and a_.get("k") == "local" and a_["id"] in content_ids):
+                        rep.add(Finding("EP", b["path"], "value", "InvalidFieldFormat in %s does not carry the "
+                                        "extracted field content" % b["name"], b["file"], n.get("ln")))
     return r
 
 
